@@ -28,32 +28,28 @@ fn kind_header(k: Kind) -> &'static str {
     }
 }
 
-/// model blob for a wrap made with the given draws; None if the model cannot follow (unowned RNG)
-fn model_from_draws<V: Full>(kind: Kind, wrapped: &[u8], opener: &[u8], recipient_pub: &[u8], params: &[u8], draws: &[rng::Draw]) -> Option<Vec<u8>> {
+/// the blob the specification prescribes for the nonce / salt the library's blob embeds (PIE, PBKW);
+/// for PKE the ephemeral secret is not on the wire, there the model *opens* the blob instead (tag and
+/// encrypted key are then determined by epk, so opening to the same key is equivalent to bit-exactness).
+/// Independent of how the library draws its randomness.
+fn model_from_embedded<V: Full>(kind: Kind, wrapped: &[u8], opener: &[u8], body: &[u8]) -> Option<Vec<u8>> {
     let kh = kind_header(kind);
     match kind {
         Kind::PieLocal | Kind::PieSecret => {
-            let n: [u8; 32] = draws.first()?.bytes[..].try_into().ok()?;
+            let t = V::tag_len().max(32);
+            let n: [u8; 32] = body.get(t..t + 32)?.try_into().ok()?;
             Some(spec::pie_wrap(V::VER, kh, opener.try_into().ok()?, &n, wrapped))
         }
         Kind::PwLocal | Kind::PwSecret => {
-            let salt = &draws.first()?.bytes;
-            let nonce = &draws.get(1)?.bytes;
-            let prefix = [&salt[..], params, &nonce[..]].concat();
-            spec::pbkw_wrap(V::VER, kh, opener, &prefix, wrapped)
+            let pl = V::pbkw_prefix_len();
+            spec::pbkw_wrap(V::VER, kh, opener, body.get(..pl)?, wrapped)
         }
-        Kind::Seal => {
-            let key: [u8; 32] = wrapped.try_into().ok()?;
-            match V::VER {
-                1 => spec::seal_rsa(recipient_pub, &draws.first()?.bytes, &key),
-                3 => {
-                    // rejection sampling: the last draw is the accepted scalar
-                    spec::seal_p384(recipient_pub, &draws.last()?.bytes, &key)
-                }
-                _ => spec::seal_x25519(V::VER, recipient_pub.try_into().ok()?, &draws.first()?.bytes[..].try_into().ok()?, &key),
-            }
-        }
+        Kind::Seal => None,
     }
+}
+
+fn poff_of<V: Full>() -> usize {
+    if V::VER == 1 || V::VER == 3 { 32 } else { 16 }
 }
 
 fn add<V: Full>(prop: &mut Property, ctx: &Ctx) {
@@ -66,14 +62,14 @@ fn add<V: Full>(prop: &mut Property, ctx: &Ctx) {
     {
         let ks = ks.clone();
         let envs: Vec<Mode> = vec![Mode::Counter(0xc07), Mode::Const(0), Mode::Const(0xff), Mode::Counting];
-        let costs = [Cost::Min, Cost::Small, Cost::Medium, Cost::Odd];
+        let costs = [Cost::Min, Cost::Small, Cost::Medium, Cost::Odd, Cost::Para2];
         let nkeys = if V::VER == 1 { 2 } else { 3 };
         let rad = [kinds.len() as u64, nkeys as u64, envs.len() as u64, costs.len() as u64];
         prop.subs.push(
             Sub::new(
                 format!("{name}/wrap-equals-spec"),
                 product(&rad),
-                format!("5 PASERK operations x {nkeys} wrapped keys / secrets x {} RNG answers x {} PBKW costs: the library's output equals the reference model's blob for the same random draws{}; the blob opens to the same key in library and model", envs.len(), costs.len(), if owned { "" } else { " (aws-lc randomness is not ownable: the model re-derives from the nonce / salt / epk embedded in the library's blob instead)" }),
+                format!("5 PASERK operations x {nkeys} wrapped keys / secrets x {} RNG answers x {} PBKW costs: the library's output equals the reference model's blob for the nonce / salt / parameters it embeds{}; the model opens the blob to the same key (for PKE this is equivalent to bit-exactness given the embedded ephemeral public key)", envs.len(), costs.len(), if owned { " under owned RNG answers" } else { " (aws-lc randomness is not ownable: repeated)" }),
                 move |idx, describe| {
                     let ix = unrank(idx, &rad);
                     let kind = kinds[ix[0]];
@@ -116,6 +112,12 @@ fn add<V: Full>(prop: &mut Property, ctx: &Ctx) {
                     });
                     let s = match r {
                         Ok(Ok(s)) => s,
+                        // libsodium's crypto_pwhash is single-lane: refusing Argon2 parallelism != 1 is the only
+                        // correct answer there (emitting a blob derived with one lane would not be the spec's blob)
+                        Ok(Err(_)) if cost == Cost::Para2 && V::RNG == RngKind::Sodium && is_pw => {
+                            o.class("refused-unsupported-parallelism");
+                            return o;
+                        }
                         other => {
                             o.violate_env(format!("{base}/wrap-failed"), format!("{:?}", other.map(|r| r.map_err(|e| err_kind(&e)))), json!({}));
                             return o;
@@ -128,12 +130,20 @@ fn add<V: Full>(prop: &mut Property, ctx: &Ctx) {
                     if hdr != format!("k{}{}", V::VER, kind_header(kind)) {
                         o.violate(format!("{base}/header"), format!("wrong header {hdr}"), json!({"paserk": s}));
                     }
-                    if owned {
-                        match model_from_draws::<V>(kind, &wrapped, &opener, &pair.1.bytes, &pbytes, &log) {
-                            Some(m) if m == body => o.class("equals-spec-for-same-draws"),
-                            Some(m) => o.violate(format!("{base}/differs-from-spec"), "blob differs from the one the specification prescribes for the same random draws", json!({"got": hexs(&body), "spec": hexs(&m), "draws": log.iter().map(|d| hexs(&d.bytes)).collect::<Vec<_>>()})),
-                            None => o.violate(format!("{base}/model-cannot-follow"), format!("the library drew {} values; the model expects the format's draws", log.len()), json!({"draw_lens": log.iter().map(|d| d.len).collect::<Vec<_>>()})),
+                    let _ = (&log, &pbytes);
+                    match model_from_embedded::<V>(kind, &wrapped, &opener, &body) {
+                        Some(m) if m == body => o.class("equals-spec-for-embedded-values"),
+                        Some(m) => o.violate_env(format!("{base}/differs-from-spec"), "blob differs from the one the specification prescribes for the nonce / salt / parameters it embeds", json!({"got": hexs(&body), "spec": hexs(&m)})),
+                        None => {
+                            if kind != Kind::Seal {
+                                o.violate_env(format!("{base}/model-declines"), "the reference model cannot rebuild the blob from the values it embeds (wrong layout or parameters)", json!({"paserk": s}));
+                            }
                         }
+                    }
+                    if is_pw && body.get(poff_of::<V>()..poff_of::<V>() + pbytes.len()) != Some(&pbytes[..]) {
+                        o.violate_env(format!("{base}/params-not-embedded"), "the requested cost parameters are not the ones embedded in the blob", json!({"paserk": s}));
+                    }
+                    if owned {
                         o.observe(s.as_bytes());
                     }
                     // the model opens the library's blob to the same key (also for unowned randomness)
